@@ -26,7 +26,7 @@ def run(ctx):
     ctx.cov["checker_cmd"] = ("coqc -Q coq/Store BWStore coq/Store/Props/C02.v; work/bin/h_store -mode hist -c02 | "
                               "coqc work/C02/cases_*.v (digest of all_queries x default options per state, vm_compute)")
     n = 30 if ctx.quick() else 600
-    hargs = ["-maxops", 30, "-usize", 24, "-bigmax", 1100 if ctx.quick() else 5000]
+    hargs = ["-maxops", 30, "-usize", 24, "-bigmax", 1100 if ctx.quick() else 5000, "-longchurn", 0 if ctx.quick() else 110]
     if ctx.replay and sc.replay(ctx, ["-c02"], hargs, (False, True, False)):
         return
     hists = sc.hstore(["-mode", "hist", "-n", n, "-seed", ctx.seed, "-c02"] + hargs)
